@@ -47,8 +47,20 @@ def pair_on_all_exits(ctx, fi, acquire_call, release_name):
                 # the query must precede the switch
                 if all(cfg.dominates(defs[0].id, an.id) for an in cfg.nodes_of(acquire_call)):
                     saved.add(n.targets[0].id)
+    # the negated form: restore_needed = not X.is_..._enabled()  ->  the false edge of `if restore_needed` is "nothing to restore"
+    saved_neg = set()
+    for n in walk_no_nested(fi.node):
+        if isinstance(n, ast.Assign) and len(n.targets) == 1 and isinstance(n.targets[0], ast.Name) and isinstance(n.value, ast.UnaryOp) and isinstance(n.value.op, ast.Not) \
+                and isinstance(n.value.operand, ast.Call) and isinstance(n.value.operand.func, ast.Attribute) and n.value.operand.func.attr.startswith("is_") and norm(n.value.operand.func.value) == recv:
+            defs = [w for w in cfg.writes(lambda t, nm=n.targets[0].id: t == nm)]
+            if len(defs) == 1 and all(cfg.dominates(defs[0].id, an.id) for an in cfg.nodes_of(acquire_call)):
+                saved_neg.add(n.targets[0].id)
     for n in cfg.nodes:
         if n.kind == "T" and isinstance(n.ast, ast.Name) and n.ast.id in saved:
+            rel.add(n.id)
+        if n.kind == "F" and isinstance(n.ast, ast.Name) and n.ast.id in saved_neg:
+            rel.add(n.id)
+        if n.kind == "T" and isinstance(n.ast, ast.UnaryOp) and isinstance(n.ast.op, ast.Not) and isinstance(n.ast.operand, ast.Name) and n.ast.operand.id in saved_neg:
             rel.add(n.id)
     if not rel:
         return False, "no call of %s.%s() in %s" % (recv, release_name, fi.short)
